@@ -81,6 +81,7 @@ class _ManifoldDynamicsService(_DynamicsServiceBase):
         self._direction = 1 if self.domain_obj._direction == "positive" else -1
         self._forward = - self._stable
         self._manifold_result = None
+        self._orbit_state_key = None
 
         self._generator = None
         self._eigendecomposition_config = None
@@ -220,11 +221,13 @@ class _ManifoldDynamicsService(_DynamicsServiceBase):
         The memo keys identify the orbit by ``id()`` only, but the orbit is mutable
         (period setter, differential correction).
         """
-        state_key = (
-            tuple(np.asarray(self.orbit.initial_state, dtype=float).tolist()),
-            self.orbit.period,
+        period = self.orbit.period
+        state_key = np.append(
+            np.asarray(self.orbit.initial_state, dtype=float),
+            np.nan if period is None else float(period),
         )
-        if getattr(self, "_orbit_state_key", None) != state_key:
+        previous = getattr(self, "_orbit_state_key", None)
+        if previous is None or not np.array_equal(np.asarray(previous, dtype=float), state_key, equal_nan=True):
             self.reset()
             self._manifold_result = None
             self._orbit_state_key = state_key
